@@ -305,6 +305,16 @@ def finish(prop, tier, t0, cov, violations, known, broken):
         broken += cbroken
         for x, sc, path in cviol:
             violations.append(({"op": "concurrent", "pre": "", "field": x["pred"], "want": "", "got": x["detail"], "cfg": sc.get("size")}, path))
+    if prop in ("C01", "C03", "C12", "C20") and not broken:
+        # iterations whose consumer moves the clock, replaces values and invalidates keys between two yields (IterHist.tla, CheckBody)
+        import itercheck
+        with vlib.scratch("verif-itb-") as iwork:
+            n, iviol, ibroken = itercheck.run(prop, tier, iwork)
+        cov["loop_body_iterations"] = n
+        cov["traces_validated_against_impl"] += n
+        broken += ibroken
+        for pred, detail, path in iviol:
+            violations.append(({"op": "iteration", "pre": "", "field": pred, "want": "", "got": str(detail)[:300], "cfg": None}, path))
     if prop in ("C04", "C05", "C07") and not broken:
         # the eviction policy object itself: every call on the real policy replayed on Policy.tla (pointer-level model of
         # policy.go / linked.go, incl. the hill climber and tasks applied out of order), judged by PolicyTrace.tla
